@@ -4,7 +4,7 @@ import time
 import traceback
 import z3
 
-from .values import V, Int, clsof
+from .values import V, Int, clsof, zcheck
 from .state import St, Unsupported, Obligation
 from .engine import Engine
 from .calls import CX, Out
@@ -56,20 +56,18 @@ class FnResult:
 
 def solve(hyps, goal, timeout_ms):
     s = z3.Solver()
-    s.set('timeout', timeout_ms)
     s.add(hyps)
     s.add(z3.Not(goal))
     t0 = time.time()
-    r = s.check()
+    r = zcheck(s, timeout_ms)
     dt = time.time() - t0
     if r == z3.unknown:
         # second attempt with a different configuration before giving up
         s2 = z3.SolverFor('ALL')
-        s2.set('timeout', timeout_ms)
         s2.set('smt.random_seed', 7)
         s2.add(hyps)
         s2.add(z3.Not(goal))
-        r2 = s2.check()
+        r2 = zcheck(s2, timeout_ms)
         dt = time.time() - t0
         if r2 != z3.unknown:
             return r2, dt, (s2.model() if r2 == z3.sat else None), s2
@@ -82,17 +80,15 @@ def cover(hyps, timeout_ms):
     says so."""
     from .core import _strip_quant, _has_quant
     s = z3.Solver()
-    s.set('timeout', min(timeout_ms, 1500))
     s.add(hyps)
-    r = s.check()
+    r = zcheck(s, min(timeout_ms, 1500))
     if r == z3.sat:
         return 'proved', ''
     if r == z3.unsat:
         return 'refuted', 'hypotheses are contradictory'
     s = z3.Solver()
-    s.set('timeout', timeout_ms)
     s.add([_strip_quant(h) for h in hyps])
-    r = s.check()
+    r = zcheck(s, timeout_ms)
     if r == z3.sat:
         return 'proved', 'satisfiable with quantified hypotheses abstracted (z3 left the full set at unknown)'
     return ('refuted', 'hypotheses are contradictory') if r == z3.unsat else ('unknown', 'cover undecided')
